@@ -235,7 +235,7 @@ def _alphabet(text, fresh, shipped):
 
 
 def _ws_strings(fresh):
-    out = [" ", "  ", "\t", "\n", "\r\n", "\x0c"]
+    out = [" ", "  ", "\t", "\n", "\r\n", "\x0c", "\n\n", "\n \n", " \n\t\n  ", "\r\n\r\n "]
     ign = set(fresh.lexer_conf.ignore)
     ok = []
     for w in out:
@@ -548,7 +548,10 @@ def _norm(t):
     if hasattr(t, "children"):
         return ("T", str(t.data), tuple(_norm(c) for c in t.children))
     if hasattr(t, "type"):
-        return ("t", str(t.type), str.__str__(t))
+        # where the token was found is part of the tree: ParseError positions and anything a
+        # caller derives from token.line / token.column come from the same counters
+        where = tuple(getattr(t, k, None) for k in ("start_pos", "end_pos", "line", "column", "end_line", "end_column"))
+        return ("t", str(t.type), str.__str__(t), where)
     return ("?", repr(t))
 
 
@@ -618,6 +621,8 @@ def _first_diff(a, b):
             return a[1], "token-type"
         if a[2] != b[2]:
             return a[1], "token-value"
+        if a[3:] != b[3:]:
+            return a[1], "token-position"
         return None
     return None if a == b else ("?", "leaf")
 
